@@ -487,6 +487,10 @@ func c14nBad(w *tr.Writer) {
 		"nonstringkey": {`{1:2}`, `{null:1}`, `{[1]:2}`},
 		// JSON's white space is space, tab, line feed and carriage return and nothing else
 		"blank": blankAround(),
+		// whatever follows the value counts, however far behind it is
+		"far-trailing": {`{"a":1}` + strings.Repeat(" ", 509) + "x", `{"a":1}` + strings.Repeat(" ", 600) + "x", `[1,2]` + strings.Repeat("\n", 5000) + "]",
+			`"s"` + strings.Repeat("\t", 4096) + "1", `1` + strings.Repeat(" ", 70000) + `{"b":2}`, `{"a":[` + strings.Repeat("1,", 3000) + `1]}` + strings.Repeat(" ", 4090) + "}",
+			`null` + strings.Repeat("\r\n", 1024) + "null", `{"a":1}` + strings.Repeat(" ", 512) + ","},
 	}
 	for cls, ins := range cases {
 		for _, s := range ins {
